@@ -243,3 +243,52 @@ def check_loads_are_independent(ctx, anchor, label):
                        f'after another workbook was loaded with {how}, {addr} of a workbook loaded with the defaults evaluates to {got!r}, expected {w}: '
                        'what one load was told to leave out is no business of the next')
     return n
+
+
+def footprint(wb):
+    """{root: number of container elements reachable from it} for everything that outlives an evaluation in the world of `wb`:
+    module-level values, class attributes, default-argument objects, memo tables, the model and its evaluators."""
+    from xlsa.guards import PyModel
+    world = wb.world
+    roots = {}
+    for k, v in world.globals.items():
+        roots[f'module-level {k}'] = v
+    for k, v in world.classattrs.items():
+        roots[f'class attribute {k[0].rpartition(":")[2]}.{k[1]}'] = v
+    for i, (k, v) in enumerate(sorted(world.__dict__.get('default_values', {}).items())):
+        roots[f'default argument object #{i}'] = v
+    for k, v in world.__dict__.items():
+        if k not in ('globals', 'classattrs', 'default_values', 'call_counts', 'funcobjs') and isinstance(v, (dict, list, set)):
+            roots[f'interpreter table {k}'] = None          # bookkeeping of the checker itself
+    roots['the model'] = wb.model
+    for key, ev in wb.evaluators.items():
+        roots[f'evaluator {key!r}'] = ev
+    out = {}
+    for name, root in roots.items():
+        seen = set()
+        total = 0
+        stack = [root]
+        while stack:
+            v = stack.pop()
+            if id(v) in seen:
+                continue
+            seen.add(id(v))
+            if isinstance(v, Rec):
+                if str(v.f.get('cls', '')).endswith((':XLCell', ':XLFormula', ':XLRange')) and name != 'the model' and not name.startswith('evaluator'):
+                    total += 1
+                    continue
+                total += len(v.f)
+                stack.extend(v.f.values())
+            elif isinstance(v, dict):
+                total += len(v)
+                stack.extend(v.values())
+                stack.extend(k for k in v if isinstance(k, (Rec, tuple)))
+            elif isinstance(v, (list, tuple, set, frozenset)):
+                total += len(v)
+                stack.extend(v)
+            elif isinstance(v, PyModel) and hasattr(v, '__dict__'):
+                for a, x in vars(v).items():
+                    if a not in ('interp', 'world'):
+                        stack.append(x)
+        out[name] = total
+    return out
